@@ -29,11 +29,14 @@ Box(t) == [k |-> "box", t |-> t]
 Opt(s, t) == [k |-> "opt", s |-> s, t |-> t]
 Res(a, b) == [k |-> "res", ok |-> a, err |-> b]
 
-Pos == {"param", "lastparam", "ret", "ret_elided", "field", "outfield", "cbparam", "cbret", "self"}
+Pos == {"param", "lastparam", "ret", "ret_elided", "ret_w", "ret_w_elided", "field", "outfield", "cbparam", "cbret", "self"}
 \* "ret_elided": a return type whose borrowed parts use elided (anonymous) lifetimes
-IsRet(p) == p \in {"ret", "ret_elided"}
+\* "ret_w", "ret_w_elided": the same two, in a method that also takes a trailing `&mut DiplomatWrite`
+\*   (lower_return_type: the write replaces the unit success value, every other rule is unchanged)
+IsRet(p) == p \in {"ret", "ret_elided", "ret_w", "ret_w_elided"}
+Elided(p) == p \in {"ret_elided", "ret_w_elided"}
 \* direction of data flow: "in" = foreign -> Rust, "out" = Rust -> foreign
-Dir(p) == IF p \in {"ret", "ret_elided", "outfield", "cbparam"} THEN "out" ELSE "in"
+Dir(p) == IF IsRet(p) \/ p \in {"outfield", "cbparam"} THEN "out" ELSE "in"
 InStruct(p) == p \in {"field", "outfield"}
 
 Named(t) == t.k \in {"struct", "zst", "outstruct", "opaque", "enum"}
@@ -137,8 +140,8 @@ LSelf(t) == CASE t.k \in {"struct", "enum"} -> OK
 Lower(p, t, unsafeRefs, checkOutFields) ==
   CASE p = "param" -> LIn(t, TRUE)
     [] p = "lastparam" -> IF t.k = "mutref" /\ t.t.k = "write" THEN OK ELSE LIn(t, TRUE)
-    [] p = "ret" -> LRet(t)
-    [] p = "ret_elided" -> IF Mentions(t, Borrowing) THEN [ok |-> FALSE, need |-> LRet(t).need] ELSE LRet(t)
+    [] p \in {"ret", "ret_w"} -> LRet(t)
+    [] Elided(p) -> IF Mentions(t, Borrowing) THEN [ok |-> FALSE, need |-> LRet(t).need] ELSE LRet(t)
     [] p = "field" -> Both(LIn(t, TRUE), IF FfiSafe(t) THEN OK ELSE NO)
     [] p = "outfield" -> Both(LOut(t, TRUE, FALSE), IF checkOutFields /\ ~FfiSafe(t) THEN NO ELSE OK)
     [] p = "cbparam" -> IF ~CbLifetimeOK(t) THEN NO ELSE WithNeed(LCbParam(t, unsafeRefs), {"callbacks"})
@@ -220,7 +223,7 @@ D_CbRefs(p, o, unsafeRefs) ==
 \* D16 only anonymous lifetimes on callback parameters
 D_CbLifetimes(p, o) == (p = "cbparam" /\ Static(o.t)) => FALSE
 \* D17 no elided lifetimes in return types (validation after lowering)
-D_Elision(p, o) == (p = "ret_elided" /\ o.t.k \in Borrowing) => FALSE
+D_Elision(p, o) == (Elided(p) /\ o.t.k \in Borrowing) => FALSE
 \* D15 self: opaques by reference, structs and enums by value
 D_Self(p, o) == (p = "self" /\ Top(o)) => (o.t.k \in {"struct", "enum"} \/ PtrOpaque(o.t))
 
